@@ -67,7 +67,8 @@ func replace(regex *Regexp, data *syntax.ReplacerData, evaluator MatchEvaluator,
 		return "", errors.New("count too small")
 	}
 	if count == 0 {
-		return "", nil
+		// nothing is to be replaced
+		return input, nil
 	}
 
 	if evaluator == nil {
